@@ -11,7 +11,7 @@ Letters ==
     \cup {[op |-> "set_vring_enable", pf |-> FALSE, q |-> q, fd |-> "", en |-> en, which |-> ""] : q \in Rings, en \in BOOLEAN}
     \cup {[op |-> "get_vring_base", pf |-> FALSE, q |-> q, fd |-> "", en |-> FALSE, which |-> ""] : q \in Rings}
     \cup {[op |-> "reset_device", pf |-> FALSE, q |-> 0, fd |-> "", en |-> FALSE, which |-> ""]}
-    \cup {[op |-> "kick", pf |-> FALSE, q |-> q, fd |-> "", en |-> FALSE, which |-> w] : q \in Rings, w \in {"cur", "old"}}
+    \cup {[op |-> "kick", pf |-> FALSE, q |-> q, fd |-> "", en |-> FALSE, which |-> w] : q \in Rings, w \in {"cur", "old", "dropped"}}
 
 vars == <<s, hist, objs>>
 Init == s = LcInit /\ hist = <<>> /\ objs = [q \in Rings |-> 0]
@@ -20,6 +20,8 @@ Init == s = LcInit /\ hist = <<>> /\ objs = [q \in Rings |-> 0]
 Applicable(a) ==
     /\ (a.op = "kick" /\ a.which = "cur") => s.kick[a.q] = "obj"
     /\ (a.op = "kick" /\ a.which = "old") => objs[a.q] >= 2
+    \* the descriptor sent last, which the ring has let go of since
+    /\ (a.op = "kick" /\ a.which = "dropped") => (objs[a.q] >= 1 /\ s.kick[a.q] = "none")
     /\ (a.op = "set_vring_kick" /\ a.fd = "same") => s.kick[a.q] = "obj"
 
 Step(a) ==
